@@ -528,6 +528,30 @@ def literal_powers(ctx, rng):
         ctx.nontrivial(("literal-power", s_))
 
 
+def function_history(ctx, rng):
+    """history: the backend's public `func(name)` (the way repetitions and user code obtain a function by name) is called with a
+    spelling of a built-in BEFORE any expression with that exact spelling has been parsed in this process; the spelling must still
+    be read as the built-in afterwards (spellings used here are used nowhere else in this module)"""
+    x, y = E.sym("x"), E.sym("y")
+    exact = {"max": 2, "min": 2, "floor": 1, "ceiling": 1, "abs": 1, "mod": 2}
+    for f, ar in exact.items():
+        for casing in (f[0] + f[1:].upper(), f[:-1].upper() + f[-1], f[0].upper() + f[1] + f[2:].upper()):
+            if casing == f:
+                continue
+            ctx.stats["function_histories"] += 1
+            try:
+                B.func(casing)
+            except Exception as e:
+                ctx.stats["func_raised_" + type(e).__name__] += 1
+            args = [E.bin_("/", x, E.num(2)), E.bin_("-", y, E.num(3))][:ar]
+            tree = E.app(f, *args)
+            s = f"{casing}(" + ", ".join(E.to_str(a) for a in args) + ")"
+            check_string(ctx, s, tree, rng, f"built-in {f} written {casing}, parsed after SympyBackend.func({casing!r}) was called")
+            if ctx.violations:
+                return
+            ctx.nontrivial(("builtin-after-func", casing))
+
+
 def run(ctx, widen=False):
     rng = ctx.rng
     known_witnesses(ctx)
@@ -536,7 +560,9 @@ def run(ctx, widen=False):
                 "precedence reader) + parenthesised pairs; every identifier shape x reserved word x position; every exact built-in in 4 casings; all other built-ins "
                 "for case-insensitivity; unknown functions; random strings to nesting depth 5|7 with random redundant parentheses and both power spellings; values "
                 "compared at 10 rational points incl. negative operands; non-trivial = distinct string with >=2 operators / distinct identifier or function shape")
-    enumerate_operators(ctx, rng)
+    function_history(ctx, rng)
+    if not ctx.violations:
+        enumerate_operators(ctx, rng)
     if not ctx.violations:
         identifiers(ctx, rng)
     if not ctx.violations:
@@ -553,6 +579,11 @@ def run(ctx, widen=False):
 def replay(payload):
     s = payload["input"]["expression"]
     print("expression:", s, "| recorded:", payload.get("what"))
+    import re
+    m = re.search(r"SympyBackend\.func\('([^']+)'\)", str(payload.get("what")))
+    if m:
+        print("history: SympyBackend.func(%r) called first" % m.group(1))
+        B.func(m.group(1))
     try:
         print("parsed:", repr(B.as_expression(s)))
     except Exception as e:
